@@ -490,8 +490,8 @@ where
 			let mut success = 0;
 			let mut failed = 0;
 
-			// Fill the batch response with placeholder values.
-			for _ in 0..rps.len() {
+			// Fill the batch response with placeholder values, one per request in the batch.
+			for _ in id_range.clone() {
 				batch_response.push(Err(ErrorObject::borrowed(0, "", None)));
 			}
 
